@@ -54,7 +54,9 @@ class HT9(materials.Material):
         self.setMassFrac("MO", 0.01)
         self.setMassFrac("W", 0.0055)
         self.setMassFrac("V", 0.0030)
-        self.setMassFrac("FE", 1.0 - sum(self.massFrac.values()))
+        # the balance of what the other elements leave (not counting a balance from an earlier call)
+        others = sum(frac for nuc, frac in self.massFrac.items() if nuc != "FE")
+        self.setMassFrac("FE", 1.0 - others)
 
         self.refDens = 7.778
 
